@@ -81,6 +81,7 @@ fn how_sync() -> impl Strategy<Value = How> {
         2 => Just(How::Call),
         2 => Just(How::InFn),
         1 => Just(How::InFnThread),
+        1 => Just(How::InFnThreadQuiet),
         2 => Just(How::EnterTwice),
         2 => Just(How::Manual),
         1 => Just(How::ManualClose),
@@ -179,8 +180,8 @@ fn node(depth: u32, can_yield: bool, in_catch: bool, memo: &mut Memo) -> BoxedSt
         ));
         alts.push((
             2,
-            (carry(), sync_body)
-                .prop_map(|(carry, body)| Node::Thread { carry, body })
+            (carry(), sync_body.clone(), any::<bool>())
+                .prop_map(|(carry, body, quiet)| Node::Thread { carry, body, quiet })
                 .boxed(),
         ));
         // tasks: mostly "a frame-wrapped future that suspends at least once", sometimes anything
@@ -203,7 +204,7 @@ fn node(depth: u32, can_yield: bool, in_catch: bool, memo: &mut Memo) -> BoxedSt
             3,
             (
                 prop_oneof![1 => prop::collection::vec(task.clone(), 1..=1), 5 => prop::collection::vec(task.clone(), 2..=2), 2 => prop::collection::vec(task, 3..=4)],
-                prop::collection::vec((any::<u32>(), prop::bool::weighted(0.25)), 0..=12),
+                prop::collection::vec((any::<u32>(), prop_oneof![6 => Just(0u8), 1 => Just(1u8), 1 => Just(2u8)]), 0..=12),
             )
                 .prop_map(|(tasks, schedule)| Node::Join { tasks, schedule })
                 .boxed(),
@@ -222,14 +223,58 @@ fn body(depth: u32, can_yield: bool, in_catch: bool, memo: &mut Memo) -> BoxedSt
     s
 }
 
+fn how_any() -> impl Strategy<Value = How> {
+    prop_oneof![6 => how_sync(), 2 => Just(How::InFuture)]
+}
+
 fn program() -> BoxedStrategy<Case> {
     let mut memo = Memo::new();
     let n = node(5, false, false, &mut memo);
-    prop::collection::vec(n, 1..=6).prop_map(|prog| Case { prog }).boxed()
+    let generic = prop::collection::vec(n.clone(), 1..=6);
+    // skeleton: frames created here are carried to a fresh thread whose FIRST context operation
+    // is entering one of them (no observation before); afterwards that thread is checked, then
+    // uses a second carried frame or a frame of its own
+    let small = body(1, false, false, &mut memo);
+    let yielding = body(1, true, false, &mut memo);
+    let first_enter = (any::<u32>(), how_any(), small.clone(), yielding.clone()).prop_map(|(slot, how, b, y)| Node::Enter {
+        slot,
+        how,
+        body: if how == How::InFuture { y } else { b },
+    });
+    let second = prop_oneof![
+        (any::<u32>(), how_any(), small.clone(), yielding).prop_map(|(slot, how, b, y)| Node::Enter {
+            slot,
+            how,
+            body: if how == How::InFuture { y } else { b },
+        }),
+        (spec(), how_sync(), small).prop_map(|(spec, how, body)| Node::Frame { spec, how, body }),
+    ];
+    let skeleton = (
+        prop::collection::vec(n.clone(), 0..=2),
+        prop::collection::vec(spec(), 1..=3),
+        first_enter,
+        second,
+        prop::collection::vec(n, 0..=2),
+    )
+        .prop_map(|(mut pre, specs, first, second, post)| {
+            let carried = specs.len();
+            pre.extend(specs.into_iter().map(Node::Create));
+            pre.push(Node::Thread {
+                // the most recently created frames are at the end of the store
+                carry: vec![u32::MAX; carried],
+                quiet: true,
+                body: vec![first, Node::Check(Obs::Direct), second, Node::Check(Obs::All)],
+            });
+            pre.extend(post);
+            pre
+        });
+    (prop::bool::weighted(0.3), prop_oneof![5 => generic, 1 => skeleton])
+        .prop_map(|(quiet_start, prog)| Case { quiet_start, prog })
+        .boxed()
 }
 
 const KINDS: [Kind; 4] = [Kind::Push, Kind::Root, Kind::Disabled, Kind::Current];
-const HOWS: [How; 10] = [
+const HOWS: [How; 11] = [
     How::Guard,
     How::With,
     How::Call,
@@ -239,6 +284,7 @@ const HOWS: [How; 10] = [
     How::EnterTwice,
     How::Manual,
     How::ManualClose,
+    How::InFnThreadQuiet,
     How::Guard,
 ];
 
@@ -248,10 +294,10 @@ fn nested_pairs() -> impl Iterator<Item = Case> + Send {
     let wraps = [Wrap::Direct, Wrap::DynBig];
     let mut out = Vec::new();
     for k1 in KINDS {
-        for h1 in &HOWS[..9] {
+        for h1 in &HOWS[..10] {
             for w1 in wraps {
                 for k2 in KINDS {
-                    for h2 in &HOWS[..9] {
+                    for h2 in &HOWS[..10] {
                         for w2 in wraps {
                             for inst2 in [0u8, 1] {
                                 let deferred = Spec {
@@ -276,6 +322,7 @@ fn nested_pairs() -> impl Iterator<Item = Case> + Send {
                                     props: vec![(0, Val::I(3)), (2, Val::S("x".into()))],
                                 };
                                 out.push(Case {
+                                    quiet_start: (out.len() % 2) == 1,
                                     prog: vec![
                                         Node::Create(deferred),
                                         Node::Frame {
@@ -406,6 +453,8 @@ fn main() {
             "kind:root",
             "kind:disabled",
             "kind:current",
+            "fresh-thread-first-op-is-enter",
+            "fresh-thread-first-op-is-enter:carried-frame",
         ] {
             s.require(c, q / 400);
         }
